@@ -404,3 +404,122 @@ def rule_R22_replacement(ctx, rep, config="c-lib"):
                               "formed before still refer to slot i -- an item advanced over a nullable prefix is put back to the start of its rule (valid input "
                               "rejected, or a wrong tree, at lookahead 2 only)" % why, where=c.where(), witness=[c.where(), slot[0].where()])
     rep.floor("R22-replace", "replacements of a situation in new_sits", n, 1)
+
+
+def _set_writer_kind(p, g, memo, depth=0):
+    """how a function treats the set passed as its first argument: 'read', 'accumulate' (every store through it writes old | something) or 'overwrite'"""
+    if g.name in memo:
+        return memo[g.name]
+    memo[g.name] = "read"
+    kind = "read"
+    def from_param0(op, depth=0, seen=None):
+        seen = seen if seen is not None else set()
+        o = strip_casts(g, op)
+        if o == {"k": "a", "v": 0}:
+            return True
+        if o.get("k") != "i" or o["v"] in seen or depth > 8:
+            return False
+        seen.add(o["v"])
+        i = g.insts.get(o["v"])
+        if i is None:
+            return False
+        if i.op == "getelementptr":
+            return from_param0(i.d["base"], depth + 1, seen)
+        if i.op == "phi":
+            return any(from_param0(v, depth + 1, seen) for (v, _) in i.d["incoming"])
+        return False
+    for s_ in g.all_insts():
+        if s_.op == "store":
+            if not from_param0(s_.ops[1]):
+                continue
+            v = g.inst(strip_int_casts(g, s_.ops[0]))
+            acc = False
+            if v is not None and v.op == "or":
+                for o in v.ops:
+                    l_ = g.inst(strip_int_casts(g, o))
+                    if l_ is not None and l_.op == "load" and strip_casts(g, l_.ops[0]) == strip_casts(g, s_.ops[1]):
+                        acc = True
+            if acc and kind == "read":
+                kind = "accumulate"
+            elif not acc:
+                kind = "overwrite"
+        elif s_.is_call():
+            cal = s_.callee or ""
+            if cal.startswith(("llvm.memcpy", "llvm.memset", "llvm.memmove")) or cal in ("memcpy", "memset", "memmove"):
+                if s_.args and from_param0(s_.args[0]):
+                    kind = "overwrite"
+            elif depth < 4 and s_.args and strip_casts(g, s_.args[0]) == {"k": "a", "v": 0}:
+                h = p.m.functions.get(cal)
+                if h is not None and not h.decl:
+                    k2 = _set_writer_kind(p, h, memo, depth + 1)
+                    if k2 == "overwrite" or (k2 == "accumulate" and kind == "read"):
+                        kind = k2
+    memo[g.name] = kind
+    return kind
+
+
+def rule_lookahead_accumulated(ctx, rep, config="c-lib"):
+    rep.rule("R22-accumulate", "the lookahead set of a situation is FIRST (tail) united with FOLLOW (lhs) or with the context when the tail can be empty: sit_set_lookahead "
+                               "builds it by accumulation -- once an operation has added terminals to the set, no later operation on the same set overwrites it "
+                               "(functions are classed by what they do with the set they get: read it, write old | new into it, or write something else)")
+    from .r14 import path_exists
+    p = ctx.prog(config)
+    f = p.fn("sit_set_lookahead")
+    rep.cover(p, [f.name])
+    memo = {}
+    ops = []
+    for c in f.all_insts():
+        if not c.is_call() or not c.args or not c.callee:
+            continue
+        lp = loaded_from(f, c.args[0])
+        if lp is None or lp.last_field() != "sit.lookahead":
+            continue
+        if c.callee.startswith(("llvm.memcpy", "llvm.memmove", "llvm.memset")) or c.callee in ("memcpy", "memmove", "memset"):
+            ops.append((c, "overwrite"))      # a helper written out (or inlined) here
+            continue
+        g = p.m.functions.get(c.callee)
+        if g is None or g.decl:
+            continue
+        ops.append((c, _set_writer_kind(p, g, memo)))
+    # writes made here directly (a helper inlined into this function): stores through a pointer made from the loaded set pointer
+    def from_set(op, depth=0, seen=None):
+        seen = seen if seen is not None else set()
+        o = strip_casts(f, op)
+        if o.get("k") != "i" or o["v"] in seen or depth > 8:
+            return False
+        seen.add(o["v"])
+        i = f.insts.get(o["v"])
+        if i is None:
+            return False
+        if i.op == "load":
+            return resolve_addr(f, i.ops[0]).last_field() == "sit.lookahead"
+        if i.op == "getelementptr":
+            return from_set(i.d["base"], depth + 1, seen)
+        if i.op == "phi":
+            return any(from_set(v, depth + 1, seen) for (v, _) in i.d["incoming"])
+        return False
+    for s_ in f.all_insts():
+        if s_.op != "store" or not from_set(s_.ops[1]):
+            continue
+        v = f.inst(strip_int_casts(f, s_.ops[0]))
+        acc = v is not None and v.op == "or" and any((lambda l_: l_ is not None and l_.op == "load" and strip_casts(f, l_.ops[0]) == strip_casts(f, s_.ops[1]))(
+            f.inst(strip_int_casts(f, o))) for o in v.ops)
+        ops.append((s_, "accumulate" if acc else "overwrite"))
+    accs = [c for (c, k) in ops if k == "accumulate"]
+    if len(accs) < 2:
+        raise AnalysisBroken("R22-accumulate: sit_set_lookahead does not accumulate its lookahead set through at least two operations (%d found)" % len(accs))
+    n = 0
+    for (c, k) in ops:
+        if k != "overwrite":
+            continue
+        n += 1
+        nm = (c.callee if c.is_call() else "a store")
+        key = "sit_set_lookahead/%s@%s" % (nm, c.where().rsplit(":", 2)[-2])
+        before = [a for a in accs if path_exists(f, a, c, [])]
+        if before:
+            rep.violation("R22-accumulate", key, "%s overwrites the lookahead set after %s has added terminals to it: what the tail of the rule can start with is lost, "
+                          "the set keeps only the context (FOLLOW) part -- with lookahead the situation is pruned although the next token begins its tail, a "
+                          "sentence is refused" % (nm, (before[0].callee if before[0].is_call() else "an earlier operation")), where=c.where(), witness=[before[0].where(), c.where()])
+        else:
+            rep.ok("R22-accumulate", key, sample={"initialisation": c.where()})
+    rep.ok("R22-accumulate", "sit_set_lookahead/accumulating-operations", sample={"operations": [a.where() for a in accs]})
